@@ -27,14 +27,20 @@ OPERANDS = ["a", "1.0e-3", "b(i+1)", "2.5d+0", "f(x, y-1)", "p%q", ".true.", "'a
 NUMERIC = {"1.0e-3", "2.5d+0", "3", "1.e5", "4.e-2_k"}
 
 
-def concretise(toks, salt, tight):
+# a small pool: the same exponent / character literal then occurs several times in one expression (inside one bracketed
+# group and again elsewhere), which is what the placeholder mechanism has to keep apart
+SMALL_POOL = ["1.0e-3", "7.e0", "'a b'", "a", "1.0e-3", "2.5d+0"]
+
+
+def concretise(toks, salt, tight, pool=None):
     """Token classes -> Fortran text.  tight: no blanks except where the lexical structure needs one."""
     out = []
     prev = None
     k = salt
+    ops = pool or OPERANDS
     for i, t in enumerate(toks):
         if t == "x":
-            s = OPERANDS[(k + i * 5) % len(OPERANDS)]
+            s = ops[(k + i * 5) % len(ops)]
         elif t in "()":
             s = t
         else:
@@ -162,7 +168,7 @@ def run(prop, tier=None, replay=None):
             continue
         texts = []
         for v in range(nvar):
-            txt = concretise(b["toks"], salt=v * 7 + i, tight=(v % 2 == 1))
+            txt = concretise(b["toks"], salt=v * 7 + i, tight=(v % 2 == 1), pool=SMALL_POOL if v % 3 == 2 else None)
             texts.append((txt, "expr"))
             if v % 3 == 0:
                 texts.append((txt, "assign"))
